@@ -41,8 +41,9 @@ func runC16(c *Ctx) {
 	ruleClientParse(c)
 	ruleClientDeadlinesPaired(c)
 	ruleNoCommandWhileDataOpen(c)
+	ruleLimitBudget(c)  // on a server with a size limit a message of exactly that size still reaches its end marker (Close returns the verdict, not a 552)
 	ruleParserCursor(c) // "exactly the sender given": the client always appends parameters (BODY=8BITMIME), so the null sender of a bounce arrives as "<> BODY=…" and must be taken as a prefix
-	ruleEnhDefault(c) // every line of the verdict carries the same (possibly defaulted) enhanced code
+	ruleEnhDefault(c)   // every line of the verdict carries the same (possibly defaulted) enhanced code
 
 	R.Rule("R-data-writer", "E4 value flow", "Data/LMTPData return a dataCloser around c.text.DotWriter() obtained on the nil-error edge of the DATA command expecting 354", 4)
 	for _, fn := range []string{"(*Client).Data", "(*Client).LMTPData"} {
